@@ -1,0 +1,16 @@
+//go:build verif
+
+package core
+
+// C10 (files written into a root carry the planned content): swapFile may
+// settle a file-to-file change by changing permissions only - without moving
+// staged content into place - exclusively when the planned content is the
+// content already there, i.e. the old and the new entry carry byte-for-byte
+// the same digest (the old entry's digest was just compared with the scan
+// cache by ensureExpectedFile, C08). Every other file-to-file change goes
+// through findAndMoveStagedFileIntoPlace, whose source is the staged file for
+// (path, newEntry.Digest) (zz_contracts_staging_verif.go).
+//
+//@ func (*transitioner).swapFile
+//@   at call (*Directory).SetPermissions assert[samecontent] len(oldEntry.Digest) == len(newEntry.Digest) && (forall i in 0..len(oldEntry.Digest) :: oldEntry.Digest[i] == newEntry.Digest[i])
+//@   at call (*transitioner).findAndMoveStagedFileIntoPlace assert[planned] arg1 == path && arg2 == newEntry
